@@ -104,6 +104,10 @@ Record wf_env (E : list sdef) : Prop := {
   wf_acyclic : exists rank : N -> nat, forall d t nm, In d E -> In t (sfields d) -> field_dep t = Some nm ->
                  (rank nm < rank (sname d))%nat }.
 
+(* every struct contained by value (directly or inside arrays) is defined *)
+Definition all_defined (E : list sdef) : Prop :=
+  forall d t nm, In d E -> In t (sfields d) -> field_dep t = Some nm -> In nm (map sname E).
+
 (* containment by value is not well-founded: there is a non-empty set of struct names each of
    which is defined with a field that contains (directly or inside arrays) a member of the set *)
 Definition byvalue_cycle (E : list sdef) : Prop :=
